@@ -11,7 +11,7 @@
       helpers <seed> <n>   silk_INVERSE32_varQ, silk_DIV32_varQ (silk/Inlines.h), silk_sar_round_smulww
                            (NSQ_del_dec_avx2.c) against the C expression RSHIFT_ROUND(SMULWW)
       lanes <seed> <n>     the 4-lane helpers of NSQ_del_dec_avx2.c (silk_mm_add_sat_epi32, _sub_sat_, _limit_, _smulww_, _smulwb_,
-                           _srai_round_ below its wrap point, silk_mm256_rand_epi32) against the C macros, lane by lane
+                           _srai_round_ over the whole range, silk_mm256_rand_epi32) against the C macros, lane by lane
       stdin                re-run recorded `kernels nsqscale|invvarq|divvarq|sarround|lane` lines */
 #include "vcommon.h"
 #include "silk/NSQ.c"
@@ -176,6 +176,9 @@ static void run_lanes(uint64_t seed, long n)
 {
    vrng r; long i;
    r.s = seed ^ 0x1A9E5ULL; r.s = vnext(&r) + 80;
+   /* corpus: the saturated value silk_mm_sub_sat_epi32 delivers, at the shift counts the kernel uses (/repo b1d58384) */
+   emit_lane("srairound", 2147483647, 4, 0, 0); emit_lane("srairound", 2147483647, 10, 0, 3);
+   emit_lane("srairound", 2147483640, 4, 0, 1); emit_lane("srairound", -2147483647 - 1, 4, 0, 2);
    for (i = 0; i < n; i++) {
       opus_int32 a = r32(&r), b = r32(&r); int k = vbelow(&r, 4);
       if (vchance(&r, 30)) b = vchance(&r, 50) ? a : -a - (a == -2147483647 - 1 ? 0 : 0) ;
@@ -188,9 +191,8 @@ static void run_lanes(uint64_t seed, long n)
         if (vchance(&r, 20)) { opus_int32 t = l1; l1 = l2; l2 = t; }
         emit_lane("limit", vchance(&r, 50) ? a : vrange(&r, -40000, 40000), l1, l2, k); }
       { int bits = vchance(&r, 50) ? 4 : (vchance(&r, 50) ? 10 : vrange(&r, 2, 30));
-        /* below the wrap point of the SIMD helper: a + 2^(bits-1) < 2^31 (see sraiRoundLane_eq; the wrap domain is reported
-           as an observation, not compared) */
-        opus_int32 lim = 2147483647 - (1 << (bits - 1)), x = a > lim ? lim : a;
+        /* the whole 32-bit range, weighted towards the top where `a + 2^(bits-1)` would wrap */
+        opus_int32 x = vchance(&r, 30) ? 2147483647 - (opus_int32)vbelow(&r, 1 << (bits > 12 ? 12 : bits)) : a;
         emit_lane("srairound", x, bits, 0, k); }
    }
    printf("# lanes cases=%ld\n", g_cases);
